@@ -3,6 +3,78 @@ import os, sys, time, json, re
 import core
 from core import Violation
 
+def canon_cross(line):
+    """What C18 compares across back-ends: return value, len, contents as a set (no layout)."""
+    if " ; " not in line:
+        return line
+    parts = line.split(" ; ")
+    ret, st = parts[0], parts[1]
+    m = re.search(r" s=(\S*)", st)
+    elems = sorted(x.split(":", 1)[1] for x in m.group(1).split(",") if x) if m else ["<hashed>"]
+    ln = re.search(r"len=(\d+)", st)
+    items = re.search(r" i=(\d+)", st)
+    return "%s | len=%s items=%s | %s" % (ret, ln.group(1) if ln else "?", items.group(1) if items else "?", ",".join(elems))
+
+
+def cross_backend(pid, tier, seed, workdir, stats):
+    """Same operation sequences (layout-independent ops) on the SSE2 and the portable build must give the same
+    return values, lengths and contents."""
+    n = 2500 if tier == "thorough" else 150
+    for profile in ("churn", "grow", "xback"):
+        prefix = os.path.join(workdir, "x-" + profile)
+        full = dict(core.ENV, HBV_FULL_DUMP="1")
+        rc, out = core.sh([core.hbv("sse2"), "gen", profile, str(gen_seed(seed, 5)), str(n), prefix], env=full, timeout=3600)
+        if rc != 0:
+            raise Violation("harness crashed generating %s" % profile, out[-1500:], False)
+        rc, out = core.sh([core.hbv("portable"), "replay", prefix + ".ops"], env=full, timeout=3600)
+        a = [canon_cross(l) for l in open(prefix + ".real").read().split("\n")]
+        b = [canon_cross(l) for l in out.split("\n")]
+        stats["evaluations"] += len(a)
+        stats["batches"].append(dict(backend="sse2-vs-portable", gen="gen %s" % profile, lines=len(a)))
+        if a != b:
+            i = next((k for k in range(min(len(a), len(b))) if a[k] != b[k]), min(len(a), len(b)))
+            # locate scenario
+            ops = open(prefix + ".ops").read().split("\n")
+            raise Violation("SSE2 and portable builds differ in return value / len / contents on the same history",
+                            "# observation %d differs\n# sse2    : %s\n# portable: %s\n# ops file: %s (profile %s)\n" % (i, a[i][:800] if i < len(a) else "<none>", b[i][:800] if i < len(b) else "<none>", prefix + ".ops", profile)
+                            + "\n".join(ops[:400]) + "\n", True)
+
+
+def c16_regen(pid, tier, seed, workdir, stats):
+    """T1 for C16: regenerate the compiler-derived marker/method tables from /repo (rustdoc JSON)."""
+    tr = os.path.join(core.VERIF, "translate", "rustdoc2lean.py")
+    out = os.path.join(core.LEAN, "Hb", "Gen", "Markers.lean")
+    rc, log = core.sh(["python3", tr, "--repo", core.REPO, "--out", out], timeout=1200)
+    if rc != 0:
+        raise Violation("C16: rustdoc JSON → Markers.lean failed (the crate no longer documents/compiles, or an impl has a shape the translator does not understand)",
+                        "# translator output\n" + log[-3000:] + "\n# tie that no longer checks: Hb.Gen.Markers (regenerated tables)\n", False)
+    n = len(re.findall(r"^\s*\(", open(out).read(), flags=re.M))
+    stats["notes"].append("C16: Hb/Gen/Markers.lean regenerated from rustdoc JSON of /repo (%d table rows)" % n)
+    stats["evaluations"] += n
+
+
+def c16_corpus(pid, tier, seed, workdir, stats):
+    """Second tie / oracle: generic obligation programs compiled by rustc against the rlib built from /repo."""
+    summ = os.path.join(workdir, "c16-summary.json")
+    rc, log = core.sh(["python3", os.path.join(core.VERIF, "translate", "c16_corpus.py"), "--repo", core.REPO, "--out", summ], timeout=3600)
+    if not os.path.exists(summ):
+        raise Violation("C16: obligation corpus could not be compiled (build of /repo failed?)", "# " + log[-2500:].replace("\n", "\n# ") + "\n", False)
+    j = json.load(open(summ))
+    stats["evaluations"] += j.get("programs", 0)
+    stats["batches"].append(dict(backend="rustc", gen="c16 obligation corpus", lines=j.get("programs", 0)))
+    stats["samples"] = stats["samples"] or [u.get("file") for u in j.get("unexpected", [])][:3] or ["harness/c16/*.rs (%d programs, all as expected)" % j.get("programs", 0)]
+    if j.get("unexpected"):
+        u = j["unexpected"][0]
+        text = "# %d of %d obligation programs did not get the expected verdict from rustc\n" % (len(j["unexpected"]), j["programs"])
+        for x in j["unexpected"][:10]:
+            text += "# %s: expected %s, got %s\n" % (x.get("file"), x.get("expected"), x.get("got"))
+        try:
+            text += "# ---- first program (compile it against the rlib of /repo to replay) ----\n" + open(os.path.join(core.VERIF, "harness", "c16", os.path.basename(u["file"]))).read()
+        except Exception:
+            pass
+        raise Violation("C16: rustc accepts a program that must be rejected (or vice versa): %s expected %s got %s" % (u.get("file"), u.get("expected"), u.get("got")), text, True)
+
+
 # Scenario batches: (profile, count_quick, count_thorough). Profiles are defined in harness/src/main.rs.
 MAP_CORE = [("grow", 150, 4000), ("churn", 250, 8000), ("saturate", 120, 4000), ("mixed", 400, 12000)]
 
@@ -18,6 +90,40 @@ PROPS = {
         note="Trusted: Lean kernel; axioms propext, Classical.choice, Quot.sound; the harness, the hook wrappers and "
              "the line protocol; u64 arithmetic of rustc for the values compared. 32-bit usize is covered by the "
              "theorems (bits ≥ 16) but has no tie (cannot be built here).",
+    ),
+    "C16": dict(
+        module="Hb.Props.C16",
+        ties=[("custom", c16_regen), ("custom", c16_corpus)],
+        backends=[],
+        pre_ties=True,
+        design="§7 C16",
+        technique="Lean 4 `decide +kernel` theorems over compiler-derived tables regenerated from /repo (rustdoc JSON) + rustc obligation corpus",
+        text="The model is the compiler's own answer: Send/Sync impls (synthesised and manual, with per-parameter bounds) and "
+             "method signatures of all 67 public types are regenerated from /repo's rustdoc JSON on every run; theorems (decide "
+             "+kernel over the finite tables) state that every impl carries the bound the hand-written requirement table "
+             "demands, that tables cover each other, and that no returned borrow is untied. The quantifier over instantiations "
+             "is discharged by rustc on generic obligations: 983 generated programs (missing-bound, variance-coercion, "
+             "borrow-across-mutation; each reject paired with an accepting twin) must get the expected verdict.",
+        note="Trusted: rustc's trait solver/borrow checker and rustdoc's rendering of synthesised impls; the requirement table "
+             "C16Req.lean (specification, written from the struct definitions); Lean kernel (axioms: none or propext). Variance "
+             "is decided only by the rustc corpus (rustdoc JSON has no variance). One recorded waiver (ParDrain: Send without a "
+             "bound on A — it never touches the allocator), proved to be a real deviation by `waivers_are_exact`.",
+    ),
+    "C18": dict(
+        module="Hb.Props.C18",
+        ties=[("pure", {}), ("t1", {}), ("custom", cross_backend), ("scen", "churn", 150, 3000), ("scen", "saturate", 60, 1500)],
+        backends=["sse2", "portable"],
+        design="§7 C18",
+        text="Lean theorems: both scanner back-ends (SSE2 lanes per Intel pseudo-code, portable u64 word tricks exactly as "
+             "written) satisfy the byte-wise GroupSpec on every group of valid control bytes, with the stated false-positive "
+             "caveat for the portable tag match (and a witness that it occurs). Ties: generic.rs/bitmask.rs/tag.rs regenerated "
+             "from source (T1, Gen = Model proofs), every primitive compared through hooks in two real builds on all 2-byte "
+             "windows x lanes x backgrounds and random groups, table histories in both builds against the model, and the same "
+             "histories cross-compared between the builds on return values/len/contents.",
+        note="Trusted: Lean kernel; propext/Classical.choice/Quot.sound plus seven `*._native.bv_decide.ax_*` axioms (bv_decide: "
+             "Lean compiler + LRAT checker) in generic_spec only — accepted, listed in evidence; Intel's documented lane "
+             "semantics of cmpeq/movemask/cmpgt/or; harness/hooks. NEON/LSX back-ends cannot be built here and are not covered; "
+             "big-endian to_le path not tied.",
     ),
     "C09": dict(
         module="Hb.Props.C09",
@@ -87,6 +193,13 @@ def run_check(pid, tier, seed):
     stats = dict(evaluations=0, distinct=set(), samples=[], batches=[], notes=[])
     rc_final = 0
     messages = []
+    # 0. ties that regenerate Lean inputs from /repo come first
+    early_violation = None
+    if cfg.get("pre_ties"):
+        try:
+            cfg["ties"][0][1](pid, tier, seed, workdir, stats)
+        except Violation as v:
+            early_violation = v
     # 1. theorems
     thm = core.check_theorems(cfg["module"])
     # 2. builds
@@ -105,12 +218,14 @@ def run_check(pid, tier, seed):
             if not ok:
                 build_problem = "harness build (%s) against /repo failed:\n%s" % (b, out[-2500:])
                 break
-    violation = None
-    if build_problem:
+    violation = early_violation
+    if violation is not None:
+        pass
+    elif build_problem:
         violation = Violation("the verification build of /repo no longer compiles", "# " + build_problem.replace("\n", "\n# ") + "\n", False)
     else:
         try:
-            run_ties(pid, cfg, tier, seed, workdir, stats)
+            run_ties(pid, dict(cfg, ties=cfg["ties"][1:]) if cfg.get("pre_ties") else cfg, tier, seed, workdir, stats)
         except Violation as v:
             violation = v
     if violation is None and thm["problems"]:
